@@ -2,9 +2,13 @@
     (same model, same correspondence [C03.Corr.agree]).
 
     [holds4]: a document the reference validator (C03/Spec.v, every rule on every syntactic position)
-    finds valid gets no diagnostic at all from the implementation. *)
+    finds valid gets no diagnostic at all from the implementation. The guards of the theorems are evaluated
+    too, so that their coverage of the generated inputs is measured on every run: [schema_wf] and
+    [schema_closed] on every schema, [doc_fine_vis] (hypothesis of C04_complete_vis) on every valid document. *)
 From V Require Import Base.Util Gql.Ast C03.Model C03.Spec C03.Corr.
 
 Definition holds4 (c : case) : bool :=
-  schema_wf (c_schema c) && input_types_closed (c_schema c) &&   (* the guards of the theorems hold for the schema *)
-  if spec_valid (c_schema c) (c_doc c) then match c_out c with [] => true | _ => false end else true.
+  schema_wf (c_schema c) && schema_closed (c_schema c) &&
+  if spec_valid (c_schema c) (c_doc c)
+  then doc_fine_vis (c_schema c) (c_doc c) && match c_out c with [] => true | _ => false end
+  else true.
